@@ -50,17 +50,22 @@ void NiGeometryData::Sync(NiStreamReversible& stream) {
 			stream.Sync(vertices[i]);
 	}
 
-	// Disable tangent flag for OB
-	if (stream.GetVersion().IsOB())
-		dataFlags &= ~(1 << 12);
+	// Disable tangent flag for OB (in the file only, tangents are kept in binary extra data)
+	uint16_t fileDataFlags = dataFlags;
+	if (stream.GetVersion().IsOB() && stream.GetMode() == NiStreamReversible::Mode::Writing)
+		fileDataFlags &= ~(1 << 12);
 
-	if (stream.GetVersion().File() >= NiFileVersion::V10_0_1_0)
-		stream.Sync(dataFlags);
+	if (stream.GetVersion().File() >= NiFileVersion::V10_0_1_0) {
+		stream.Sync(fileDataFlags);
 
-	uint16_t nbtMethod = dataFlags & 0xF000;
-	uint8_t numTextureSets = dataFlags & 0x3F;
+		if (stream.GetMode() == NiStreamReversible::Mode::Reading)
+			dataFlags = fileDataFlags;
+	}
+
+	uint16_t nbtMethod = fileDataFlags & 0xF000;
+	uint8_t numTextureSets = fileDataFlags & 0x3F;
 	if (stream.GetVersion().Stream() >= 34)
-		numTextureSets = dataFlags & 0x1;
+		numTextureSets = fileDataFlags & 0x1;
 
 	if (stream.GetVersion().File() == NiFileVersion::V20_2_0_7 && stream.GetVersion().Stream() > 34)
 		stream.Sync(materialCRC);
